@@ -22,7 +22,7 @@ const nLongUpstreams = 8
 var (
 	longLens  = []int{21, 25, 40, 100, 21, 25, 40, 100}
 	longMasks = []int{kGrp, kGrp, kGrp, kGrp, kAddr | kGrp, kDom | kGrp, kDom | kGrp, kAddr | kGrp}
-	// where the user's only listed group sits (1-based) in the order the proxy asks in (it sorts the list)
+	// where the user's only listed group sits (1-based) in the configured (sorted) list
 	longPositions = []string{"1", "20", "21", "22", "last", "random", "special-name", "first+last", "unlisted", "none"}
 	longModes     = []string{"passes-every-email-rule", "passes-no-email-rule"}
 )
@@ -78,7 +78,10 @@ func genLongConfig(ci int, seed int64) []*longUpstream {
 			isSpecial[n] = true
 		}
 		u.gv = fmt.Sprintf("long/%d", longLens[i])
-		// the configuration lists them in generation order (NOT sorted); the proxy is handed a copy
+		// the list is configured in sorted order: sso's coalescing wrapper sorts the list before some lookups
+		// and not before others, so only for a sorted list is "position in the list the proxy asks about"
+		// the same on every path
+		sort.Strings(u.rules.Groups)
 		u.spec = sut.UpstreamSpec{Service: fmt.Sprintf("lg%dx%d", ci, i), From: u.host,
 			AllowedEmailAddresses: u.rules.Addresses, AllowedEmailDomains: u.rules.Domains, AllowedGroups: append([]string(nil), u.rules.Groups...)}
 		lu := &longUpstream{upstream: u, asked: append([]string(nil), u.rules.Groups...)}
